@@ -90,6 +90,7 @@ PROPS["C01"] = dict(
         "Zrnt.Proofs.C01.processBlock_noOps_eq",
         "Zrnt.Proofs.C01.processBlock_exits_eq",
         "Zrnt.Proofs.C01.processBlock_slashExit_eq",
+        "Zrnt.Proofs.C01.processBlock_attestations_eq",
         "Zrnt.Proofs.C01.ctx_frames",
         "Zrnt.Proofs.C01.sameCommittees_initiate",
     ],
@@ -116,7 +117,9 @@ PROPS["C01"] = dict(
         "preservation halves of OpSteps for ONE invariant implying every operation's hypotheses (done for exits, deposits' registry part, BLS changes, "
         "slashings; missing: the magnitude budgets across attestations/sync aggregate/withdrawals, and assembling the frame lemmas for the context's "
         "committees and total active balance (ctx_frames) into that invariant). The premise is discharged completely for phase0 blocks without operations "
-        "(processBlock_noOps_eq) and for phase0 blocks whose only operations are voluntary exits, any number of them (processBlock_exits_eq)",
+        "(processBlock_noOps_eq), for phase0 blocks whose only operations are voluntary exits (processBlock_exits_eq), for phase0 blocks of proposer "
+        "slashings + attester slashings + exits in any numbers (processBlock_slashExit_eq, counter-indexed invariant P0Inv) and for phase0 blocks of "
+        "attestations (processBlock_attestations_eq); open: deposits, one merged phase0 invariant, altair..deneb",
         "simulation (Sim): whenever S accepts with a post-state or rejects with `invalid`, M gives the same, and M never panics; S's own overflow/fuel/"
         "oracle outcomes (S as an executable could not decide) constrain nothing — the operation theorems exclude them under their magnitude hypotheses",
         "composition hypothesis check_types: the block is a value of the SSZ block type (per-element limits zrnt enforces when decoding)",
